@@ -109,6 +109,10 @@ fn emit(history: &[MigrationPlan], plan: &MigrationPlan, tag: &str, hist: usize,
 const NEW_TABLES: &[&str] = &["account", "member", "entry", "doc", "t2", "grp"];
 const NEW_COLS: &[&str] = &["label", "note", "code", "ref_id", "flag", "pos", "title"];
 
+/// quoted literals and casts for text columns (defaults and fill values never coincide: disjoint pools)
+const TEXT_DEFAULTS: &[&str] = &["'::1'", "'a::b'", "'x'::text", "'a''b'::varchar", "'it''s'", "'ends::'", "'(p)'", "'d::e'::text", " 'sp' "];
+const TEXT_FILLS: &[&str] = &["'::2'", "'::'", "'std::string'", "'y'::text", "'q''r'::varchar", "'o''k'", "'z::'", "'(x)'::text", "'f::g'::varchar", "'''::'"];
+
 fn int_like(t: &ColumnType) -> bool {
     matches!(t, ColumnType::Simple(SimpleColumnType::Integer | SimpleColumnType::BigInt | SimpleColumnType::SmallInt))
 }
@@ -238,14 +242,24 @@ fn hand_plan(rng: &mut Rng, baseline: &[TableDef], version: u32) -> Option<(Migr
                     let mut c: ColumnDef = gener::col(cn, ty, !notnull);
                     let both = rng.chance(1, 2);
                     let with_default = notnull || both || rng.chance(1, 3);
+                    // text defaults / fills: half of them are literals the PostgreSQL-cast parser of convert_default_for_backend
+                    // has to look at — `::` inside a quoted literal (not a cast), a literal that ends in `::`, doubled quotes,
+                    // parentheses — and genuine casts ('x'::text, 'a''b'::varchar, 7::integer), whose cast SQLite drops
+                    let tricky = rng.chance(1, 2);
                     if with_default {
                         c.default = Some(match kind {
                             0 => vespertide_core::DefaultValue::Integer(0),
+                            1 if tricky => vespertide_core::DefaultValue::String((*rng.pick(TEXT_DEFAULTS)).to_string()),
                             _ => vespertide_core::DefaultValue::String("'basic'".into()),
                         });
                     }
                     let fill_with = if both || (!with_default && rng.chance(1, 2)) {
-                        Some(match kind { 0 => "7".to_string(), _ => "'legacy'".to_string() })
+                        Some(match kind {
+                            0 if tricky => (*rng.pick(&["7::integer", " 7 :: bigint ", "7"])).to_string(),
+                            0 => "7".to_string(),
+                            1 if tricky => (*rng.pick(TEXT_FILLS)).to_string(),
+                            _ => "'legacy'".to_string(),
+                        })
                     } else {
                         None
                     };
